@@ -152,6 +152,8 @@ def gather(prop, cfgs, only=None, tier='thorough'):
                         cc2 = families.contract_for(cf, db)
                         if cc2 is not None:
                             repl[cal] = cc2
+            if getattr(c, 'replace_with', None):
+                repl.update(c.replace_with)
             for cpart in c.split(tier):
                 try:
                     ob = P.build_obligation(prop, cfg, db, fn, cpart, repl)
@@ -217,6 +219,8 @@ def classify(ob):
             return 'undecided', 'CBMC ignored a construct: ' + m[:200]
     if r['verdict'] == 'pass':
         return 'pass', None
+    if getattr(ob.contract, 'forwarding', False):
+        return 'undecided', 'forwarding obligation failed (the function no longer forwards to the replaced callee in the expected way) and no direct contract is available for it'
     return 'fail', None
 
 
@@ -255,10 +259,30 @@ def check_property(prop, tier, configs=None, only=None, keep=False, write_eviden
             if cc is None:
                 continue
             db = dbs[ob.cfgs[0]]
-            cob = P.build_obligation(prop, ob.cfgs[0], db, ob.fn, cc)
+            cob = P.build_obligation(prop, ob.cfgs[0], db, ob.fn, cc, getattr(ob, 'repl_contracts', None))
             cob.is_canary = True
             canaries.append(cob)
         P.run_obligations(obs + canaries, sc, tier)
+        # forwarding obligations (callee replaced by an abstract contract) that fail are not violations: the code may have
+        # stopped forwarding in that particular way.  The direct contract (callee inlined) is discharged instead and decides.
+        fb = []
+        for ob in obs:
+            fbc = getattr(ob.contract, 'fallback', None)
+            if fbc is not None and ob.result and (ob.result['verdict'] != 'pass'):
+                for cpart in fbc.split(tier):
+                    try:
+                        fo = P.build_obligation(prop, ob.cfgs[0], dbs[ob.cfgs[0]], ob.fn, cpart)
+                    except (P.tu.ExtractionError, P.cxx2c.Abort) as e:
+                        problems.append('%s: %s: %s' % (ob.cfgs[0], ob.cname, e))
+                        continue
+                    fo.cfgs = list(ob.cfgs)
+                    fo.replaces = ob
+                    fb.append(fo)
+        if fb:
+            print('  %d forwarding obligation(s) failed; discharging the direct contract(s) instead (%d obligations)' % (len({id(f.replaces) for f in fb}), len(fb)), file=sys.stderr)
+            P.run_obligations(fb, sc, tier, progress=False)
+            dead = {id(f.replaces) for f in fb}
+            obs = [o for o in obs if id(o) not in dead] + fb
         known = [k for k in load_known() if (k['property'] == prop or prop in k.get('also_properties', [])) and k.get('status') == 'open']
         n_cbmc = 0
         n_discharged = 0
@@ -310,7 +334,7 @@ def check_property(prop, tier, configs=None, only=None, keep=False, write_eviden
                 continue
             cc = copy.copy(ob.contract)
             cc.requires = list(cc.requires) + [rq]
-            rob = P.build_obligation(prop, ob.cfgs[0], dbs[ob.cfgs[0]], ob.fn, cc)
+            rob = P.build_obligation(prop, ob.cfgs[0], dbs[ob.cfgs[0]], ob.fn, cc, getattr(ob, 'repl_contracts', None))
             rob.parent = ob
             rob.hit = hit
             residual.append(rob)
@@ -356,9 +380,12 @@ def check_property(prop, tier, configs=None, only=None, keep=False, write_eviden
             print('UNDECIDED: %s [%s]: %s' % (ob.ident(), ','.join(ob.cfgs), (why or '')[:400]))
         for pb in problems[:40]:
             print('EXTRACTION-PROBLEM: ' + pb)
+        lemmas_ok = check_lemmas(prop, tier)
+        if not lemmas_ok:
+            print('UNDECIDED: a Lean lemma this property relies on did not check: %s' % json.dumps(LEMMA_STATUS)[:400])
         if viol_lines:
             exit_code = 1
-        elif undecided or bad_canaries or problems or und_canaries:
+        elif undecided or bad_canaries or problems or und_canaries or not lemmas_ok:
             exit_code = 2
         wall = time.time() - t0
         slow = sorted(((ob.result.get('solver_s', 0), ob.ident(), ','.join(ob.cfgs)) for ob in obs if ob.result), reverse=True)[:8]
@@ -381,6 +408,35 @@ def check_property(prop, tier, configs=None, only=None, keep=False, write_eviden
         else:
             print('scratch kept: ' + sc.dir, file=sys.stderr)
     return exit_code
+
+
+LEMMA_PROPS = {'C01': 'L1 (64-bit product from 32-bit partial products)', 'C05': 'L5 (Euclidean witness of shift-subtract dividers), L2',
+               'C14': 'L3 (unsigned), L4 (signed) Granlund-Montgomery', 'C15': 'L3, L4 (lane-wise)'}
+LEMMA_STATUS = {}
+
+
+def check_lemmas(prop, tier):
+    """thorough tier: the Lean files the property's modulo-lemma obligations rely on are re-checked by `lean` on this machine"""
+    LEMMA_STATUS.clear()
+    if prop not in LEMMA_PROPS:
+        return True
+    LEMMA_STATUS['relies_on'] = LEMMA_PROPS[prop]
+    if tier != 'thorough':
+        LEMMA_STATUS['checked'] = 'not re-checked in the quick tier (the thorough tier runs `lean` on /verif/lemmas/*.lean)'
+        return True
+    import subprocess, glob
+    ok = True
+    for f in sorted(glob.glob(os.path.join(ROOT, 'lemmas', '*.lean'))):
+        t0 = time.time()
+        try:
+            r = subprocess.run(['lean', f], capture_output=True, text=True, timeout=1800)
+            bad = r.returncode != 0 or 'sorry' in (r.stdout + r.stderr) or 'error' in (r.stdout + r.stderr)
+            LEMMA_STATUS[os.path.basename(f)] = {'exit': r.returncode, 'seconds': round(time.time() - t0, 1), 'ok': not bad, 'output_tail': (r.stdout + r.stderr)[-400:]}
+        except (OSError, subprocess.TimeoutExpired) as e:
+            bad = True
+            LEMMA_STATUS[os.path.basename(f)] = {'exit': None, 'ok': False, 'output_tail': str(e)[:300]}
+        ok = ok and not bad
+    return ok
 
 
 MAX_REPLAYS = int(os.environ.get('VERIF_MAX_REPLAYS', '12'))   # further violations of the same run are recorded with their counterexample but not re-executed
@@ -416,6 +472,7 @@ def write_ev(prop, tier, cfgs, obs, passed, violations, known_hits, undecided, c
             'partial_domain_obligations_discharged_not_counted_as_proof': n_partial,
             'api_functions_without_contract': sorted(set(UNMATCHED))[:200],
             'slowest_obligations': list(SLOWEST),
+            'lemmas': dict(LEMMA_STATUS),
             'thorough_tier_only': NOT_RUN_QUICK[:300],
             'thorough_tier_only_count': len(NOT_RUN_QUICK),
             'not_covered': NOT_COVERED[:200],
